@@ -574,7 +574,11 @@ func runReuseCase(cs *ReuseCase) (fs []finding) {
 	}
 	execAny := func(ctx context.Context, v any) (any, error) {
 		mu.Lock()
-		got[pass] = append(got[pass], v.(int))
+		x, isInt := v.(int)
+		if !isInt {
+			x = -1 // (not an item's value: shows up in the comparison below)
+		}
+		got[pass] = append(got[pass], x)
 		mu.Unlock()
 		return v, nil
 	}
@@ -672,6 +676,23 @@ func runBigBatchCase(cs *BigBatchCase) (fs []finding) {
 			fs = append(fs, finding{"panic:batch-large", fmt.Sprint(pn)})
 		}
 	}()
+	// a finding made inside a callback (which may run on a pool worker, where a panic of the harness's own would end the process)
+	var cbMu sync.Mutex
+	var cbFinding *finding
+	noteCB := func(key, f string, a ...any) {
+		cbMu.Lock()
+		if cbFinding == nil {
+			cbFinding = &finding{key, fmt.Sprintf(f, a...)}
+		}
+		cbMu.Unlock()
+	}
+	defer func() {
+		cbMu.Lock()
+		if cbFinding != nil {
+			fs = append([]finding{*cbFinding}, fs...)
+		}
+		cbMu.Unlock()
+	}()
 	errItem := func(i int) bool { return cs.ErrItemEvery > 0 && i%cs.ErrItemEvery == 4 }
 	fails := func(i int) bool { return (cs.FailAll || (cs.FailEvery > 0 && i%cs.FailEvery == 3)) && !errItem(i) }
 	outs := make([]*int, cs.N) // what exec returned for item i (a fresh pointer per item)
@@ -696,7 +717,11 @@ func runBigBatchCase(cs *BigBatchCase) (fs []finding) {
 			errItemCalls.Add(1)
 			return "handled-error-item", nil
 		}
-		i := v.(int)
+		i, isInt := v.(int)
+		if !isInt || i < 0 || i >= cs.N {
+			noteCB("batch-large-exec-arg", "the Any-style exec function of a batch over the items 0..%d received %T (%.60v) instead of an item's value", cs.N-1, v, v)
+			return nil, fmt.Errorf("not an item")
+		}
 		if cs.CancelAt > 0 && i == cs.CancelAt {
 			cancel()
 		}
@@ -716,7 +741,11 @@ func runBigBatchCase(cs *BigBatchCase) (fs []finding) {
 			errItemCalls.Add(1)
 			return flyt.NewResult("handled-error-item"), nil
 		}
-		i := it.Value().(int)
+		i, isInt := it.Value().(int)
+		if !isInt || i < 0 || i >= cs.N {
+			noteCB("batch-large-exec-arg", "the Result-style exec function of a batch over the items 0..%d received a Result holding %T (%.60v) instead of an item's value", cs.N-1, it.Value(), it.Value())
+			return flyt.Result{}, fmt.Errorf("not an item")
+		}
 		if fails(i) {
 			attempts[i]++ // (one item is processed by one goroutine at a time)
 			if cs.FailAs == "error-result" || (cs.FailAs == "error-then-error-result" && attempts[i] > 1) {
